@@ -268,8 +268,25 @@ fn edit<G: CurveTag>(ch: &mut Choices, m0: &ProofMirror<G>, o: &[u8], prog: &Pro
         }
         // inner-product rounds
         3 => {
-            let kind = ch.below(9);
+            let kind = ch.below(12);
             let desc = match kind {
+                9 | 10 => {
+                    // one or two rounds whose two points are the identity, at any position
+                    let n = if kind == 9 { 1 } else { 2 };
+                    for _ in 0..n {
+                        let i = ch.below(m.ipp.L.len() + 1);
+                        m.ipp.L.insert(i, G::zero());
+                        m.ipp.R.insert(i, G::zero());
+                    }
+                    "identity round(s) inserted"
+                }
+                11 => {
+                    let i = ch.below(m.ipp.L.len() + 1);
+                    let p = rand_point::<G>(7);
+                    m.ipp.L.insert(i, p);
+                    m.ipp.R.insert(i, (-p.into_group()).into_affine());
+                    "round (P, −P) inserted"
+                }
                 0 if k > 0 => {
                     std::mem::swap(&mut m.ipp.L, &mut m.ipp.R);
                     "L list <-> R list"
